@@ -240,7 +240,7 @@ def real_slots(chk, rounds):
             chk.coverage["traces_validated_against_impl"] += 1
 
 
-def run_prop(prop, tier, seed, replay=None, extra_oracles=()):
+def run_prop(prop, tier, seed, replay=None, extra_oracles=(), extra_part=None):
     chk = Check(prop, tier, seed)
     chk.build_proofs(MODEL_TARGETS)
     oracles = [prop] + list(extra_oracles)
@@ -264,10 +264,12 @@ def run_prop(prop, tier, seed, replay=None, extra_oracles=()):
                 os.environ["COND_SLOT"] = saved
         cases = cases[len(cases) // 4:]
     run_cases(chk, cases, oracles)
-    if prop == "C03":
+    if prop in ("C03", "C01"):
         real_failures(chk, 4 if tier == "quick" else 24)
     if prop == "C04":
         real_slots(chk, 4 if tier == "quick" else 24)
+    if extra_part is not None:
+        extra_part(chk, tier)
     if prop == "C09":
         from reaper_util import reaper_scenarios
 
